@@ -20,7 +20,7 @@ import fam_emitast
 
 ID = "C13"
 COQ_PROP = "C13"
-FAMILIES = [(fam_emitast, 1500, 12000)]
+FAMILIES = [(fam_emitast, 4000, 40000)]
 TECHNIQUE = ("Coq proof (exact write-footprints of the three emitters; non-interference by induction over call sequences "
              "of any length inside the guard) + differential correspondence of EmitAst.v (artefact AND post-call IR) "
              "+ exhaustive enumeration of call sequences up to length 3/4 on the implementation")
